@@ -64,6 +64,8 @@ pub enum TypeErrorEnum {
     MissingStructField(String, String),
     /// The struct constructor or pattern specifies the field more than once.
     DuplicateStructField(String, String),
+    /// The enum definition contains the same variant name more than once.
+    DuplicateEnumVariant(String, String),
     /// No enum declaration with the specified name exists.
     UnknownEnum(String, String),
     /// The enum exists, but no variant declaration with the specified name was found.
@@ -156,6 +158,9 @@ impl std::fmt::Display for TypeErrorEnum {
             ),
             TypeErrorEnum::MissingStructField(struct_name, struct_field) => f.write_fmt(
                 format_args!("Field '{struct_field}' is missing for struct '{struct_name}'"),
+            ),
+            TypeErrorEnum::DuplicateEnumVariant(enum_name, variant_name) => f.write_fmt(
+                format_args!("Enum '{enum_name}' has more than one variant named '{variant_name}'"),
             ),
             TypeErrorEnum::DuplicateStructField(struct_name, struct_field) => f.write_fmt(
                 format_args!("Field '{struct_field}' is specified more than once for struct '{struct_name}'"),
@@ -501,6 +506,12 @@ impl UntypedProgram {
         for (struct_name, struct_def) in self.struct_defs.iter() {
             let meta = struct_def.meta;
             let mut fields = Vec::with_capacity(struct_def.fields.len());
+            for (i, (name, _)) in struct_def.fields.iter().enumerate() {
+                if struct_def.fields[..i].iter().any(|(n, _)| n == name) {
+                    let e = TypeErrorEnum::DuplicateStructField(struct_name.clone(), name.clone());
+                    errors.extend(vec![Some(TypeError::new(e, meta))]);
+                }
+            }
             for (name, ty) in struct_def.fields.iter() {
                 if let Err(e) = expect_const_array_sizes(ty, &|c| const_types.get(c).cloned(), meta)
                 {
@@ -517,6 +528,17 @@ impl UntypedProgram {
         for (enum_name, enum_def) in self.enum_defs.iter() {
             let meta = enum_def.meta;
             let mut variants = Vec::with_capacity(enum_def.variants.len());
+            for (i, variant) in enum_def.variants.iter().enumerate() {
+                let name = variant.variant_name();
+                if enum_def.variants[..i]
+                    .iter()
+                    .any(|v| v.variant_name() == name)
+                {
+                    let e =
+                        TypeErrorEnum::DuplicateEnumVariant(enum_name.clone(), name.to_string());
+                    errors.extend(vec![Some(TypeError::new(e, meta))]);
+                }
+            }
             for variant in enum_def.variants.iter() {
                 variants.push(match variant {
                     Variant::Unit(variant_name) => Variant::Unit(variant_name.clone()),
